@@ -48,10 +48,11 @@ def rule_matrix(rep, tier):
     rep.rule("C19.matrix", "each public header compiles as the only include and as a repeated include of a TU, "
                            "for every compiler x standard x {exceptions, -fno-exceptions}")
     hs = headers()
-    stds = ["c++17"] if tier == "quick" else ["c++14", "c++17", "c++20"]
     jobs = []
     for h in hs:
         for comp in ("g++", "clang++"):
+            # quick: the project's compiler under every standard, clang under C++14 and C++17; thorough: everything
+            stds = ["c++14", "c++17", "c++20"] if (tier == "thorough" or comp == "g++") else ["c++14", "c++17"]
             for std in stds:
                 for noexc in (False, True):
                     text = '#include "xtl/%s"\n#include "xtl/%s"\nint main() { return 0; }\n' % (h, h)
